@@ -25,6 +25,17 @@ CHECKS = {
         BASE_NOTE + 'Ordinal kinds are assumed to embed monotonically into Z; SQLAlchemy/sqlite comparison semantics trusted.',
         'DESIGN.md section 5 C10',
     ),
+    'C19': (
+        'Rocq proof (stable sort, wildcard-match characterisation, first-match choice, finite sweep over generated codec tables) + differential correspondence',
+        'Theorems (Properties/C19.v): parsed media ranges are a permutation of the header ranges sorted by descending quality and '
+        'stable on ties (any length); Encoding.match is characterised exactly as wildcard match on the kind plus option inclusion; '
+        'get_encoder returns the first table entry matching the first satisfiable client preference and fails iff nothing '
+        'matches; get_decoder likewise; over the ENCODERS/DECODERS tables regenerated from the source on every run no entry is '
+        'shadowed (vm_compute sweep, re-proved when the tables change). Correspondence: header strings rendered from token lists '
+        '(so cgi.parse_header tokenisation is exercised), pattern/concrete pairs, target lists, codec round trips usable under pandas 3.',
+        BASE_NOTE + 'Header tokenisation, fnmatch bracket classes and the pandas codecs are covered by the correspondence only.',
+        'DESIGN.md section 5 C19',
+    ),
 }
 NOT_YET = 'model and theorems not built yet in this round (planned, see DESIGN.md section 5/9)'
 
